@@ -42,6 +42,12 @@ CHECKS = {
  "C33": ("exploration", "model-based run-time monitor: conformance oracle on the dump and on session answers after every write through every write path",
          "held on every generated schema/history of the run apart from the listed known findings (session-fact paths, schema declared over non-conforming data): stored tuples conform, non-conforming batches leave the relation unchanged, conforming batches are stored",
          "trusted: the harness's conformance table (int, float<-int, string, bool, vector)", "3/C33"),
+ "C30": ("exploration", "fault-injection run-time monitor: syntax error injected at every position of generated valid programs, full dump compared before/after; in-order set model for the valid program",
+         "held on every generated program of the run: a program containing a line parse_statement rejects fails as a whole and leaves every KG's facts/rules/schemas unchanged; the valid program ends in the in-order model state with matching per-statement reports",
+         "trusted: the crate's own parse_statement to define 'fails to parse'; set model for 7 statement kinds", "3/C30"),
+ "C34": ("exploration", "differential run-time monitor: independent dependency-graph analysis vs accept/evaluate behaviour over every persistent/session split",
+         "held on every generated rule set, split and session style of the run: a predicate on a negative cycle is never answered, stratified sets are always answered, no stratification-preserving registration is refused",
+         "trusted: the harness's reachability-based stratifiability test", "3/C34"),
 }
 NOT_YET = "monitor not built yet in this round (design in DESIGN.md section 3); not claimed until a check exists"
 
